@@ -51,6 +51,23 @@ PROGS = {
     "V2": ("v2.c", 'static  int T; void f(int x){ T * x; x = x ; x = (T)( 1 ) ; }'),
     "U3": ("u3.c", 'typedef int T; void g(int (T)); int h(T);'),
     "V3": ("v3.c", 'static  int T; void g(int (T)); int h(T);'),
+    # rarely taken parser branches, where leaking state is usually set, next
+    # to programs with the common branch that observes it
+    # - for-declaration whose body reads the enclosing '}' as lookahead | three-
+    #   deep braces with a local shadowing a typedef that is used afterwards
+    "R0": ("r0.c", "void f(void){ for (int i = 0; i < 2; i++) if (i) g(); }"),
+    "R1": ("r1.c", "typedef int T; void f(void){ { int T; { int q; } T = 1; } T y; }"),
+    # - declaration without a type specifier in a block / in a K&R list (the
+    #   latter is rejected) | a typedef name redeclared as member and parameter
+    "N0": ("n0.c", "void f(void){ extern helper(); helper(); }"),
+    "N1": ("n1.c", "typedef int T; struct S { char T; }; int f(int T);"),
+    "N2": ("n2.c", "int g(a) register a; { return a; }"),
+    # - runs of adjacent string literals | a run followed by a lexer error
+    "S0": ("s0.c", 'char *s = "12" "34"; int t = g("ab" "cd");'),
+    "S1": ("s1.c", 'char *s = "ab" "cd" @;'),
+    # - _Atomic(...), statement expression | K&R definition with enumerators, [*]
+    "M0": ("m0.c", "typedef int T; _Atomic(T) b; int x = ({ int y = 1; y; });"),
+    "M1": ("m1.c", "int k(a) enum { A, B } a; { return A; } void f(int n, int a[*]);"),
     # shallow | deep: X is short; Y nests DEEP_K parentheses, about 8 Python
     # frames each (measured: the deepest nesting that parses is 372 at a
     # recursion limit of 3000 and 1247 at 10000), i.e. clearly more frames
@@ -307,6 +324,12 @@ def plan(tier):
         (_ref("2 parsers U1|V1 (aligned: cast / sizeof(type) vs expression) @token", "parse:U1:token", "parse:V1:token"), bt),
         (_ref("2 parsers U2|V2 (aligned: declaration, label, compound literal vs expressions) @token", "parse:U2:token", "parse:V2:token"), bt),
         (_ref("2 parsers U3|V3 (aligned: abstract declarator / prototype vs parameter name / identifier list) @token", "parse:U3:token", "parse:V3:token"), bt),
+        # rare branch | common branch
+        (_ref("2 parsers R0|R1 (for-declaration + if before '}' | three-deep braces, shadowed typedef) @token", "parse:R0:token", "parse:R1:token"), bt),
+        (_ref("2 parsers N0|N1 (typeless declaration in a block | typedef name redeclared) @token", "parse:N0:token", "parse:N1:token"), bt),
+        (_ref("2 parsers N2|N1 (typeless declaration in a K&R list, rejected | typedef name redeclared) @token", "parse:N2:token", "parse:N1:token"), bt),
+        (_ref("2 parsers S0|S1 (adjacent string literals | a run followed by a lexer error) @token", "parse:S0:token", "parse:S1:token"), bt),
+        (_ref("2 parsers M0|M1 (_Atomic, statement expression | K&R enumerators, [*]) @token", "parse:M0:token", "parse:M1:token"), bt),
         # process-wide interpreter state: shallow | deep
         (_ref("2 parsers X(shallow)|Y(640 nested parentheses) @token (Y: first 6 pulls, then every 64th)", "parse:X:token", "parse:Y:sparse"), bt),
         (_ref("3 parsers E|F|G (same directives, G names a file) @token", "parse:E:token", "parse:F:token", "parse:G:token"), bt),
